@@ -275,7 +275,7 @@ func main() {
 	add := func(p string, f chain.ForkSchedule, epochs int) {
 		cfgs = append(cfgs, cfg{preset: p, forks: f, validators: chain.DefaultValidatorCount(p), epochs: epochs})
 	}
-	perBlock, bytesPer := 5, 0
+	perBlock, bytesPer := 5, 1
 	if *tier == "quick" {
 		add(chain.PresetS1, chain.Phase0Only, 14)
 		add(chain.PresetS1, F(2, X, X, X), 14)
